@@ -287,15 +287,17 @@ where
         let s = s.borrow_term();
         let p = p.borrow_term();
         let o = o.borrow_term();
+        let mut removed = false;
         let mut i = 0;
         while i < self.len() {
             if self[i].matched_by([s], [p], [o]) {
                 self.swap_remove(i);
+                removed = true;
             } else {
                 i += 1;
             }
         }
-        Ok(true)
+        Ok(removed)
     }
 }
 
